@@ -74,7 +74,8 @@ Record KI (P : kparams) (cs0 : CS) (chunks : list (bytes * bool)) (k : kstate) :
   ki_nolast : k_frameEnded k = false -> nolast chunks;
   ki_ended : k_frameEnded k = true -> complete chunks /\ k_inPend k = [];
   ki_init : k_stage k = KInit -> k_outPend k = [] /\ k_inPend k = [];
-  ki_bs : k_stage k <> KInit -> 1 <= k_blockSize k }.
+  ki_bs : k_stage k <> KInit -> 1 <= k_blockSize k;
+  ki_fresh : k_stage k = KInit -> k_frameEnded k = false -> chunks = [] }.
 
 (* between loop iterations the input buffer of a live frame is never full *)
 Definition Strict (P : kparams) (k : kstate) : Prop :=
@@ -185,7 +186,7 @@ Definition IterOK (P : kparams) (cs0 : CS) (dir : directive) (chunks : list (byt
   | GCont g' => exists chunks', KI P cs0 chunks' (g_k g') /\ GStep cs0 chunks chunks' g g' /\ k_stage (g_k g') = KLoad /\
                                 phi g' < phi g /\ k_held (g_k g') = [] /\ Strict P (g_k g')
   | GStop g' => exists chunks', KI P cs0 chunks' (g_k g') /\ GStep cs0 chunks chunks' g g' /\ StopWhy P dir g' /\
-                                (kp_stableIn P = false -> k_held (g_k g') = []) /\ Strict P (g_k g')
+                                (k_held (g_k g') = [] \/ (kp_stableIn P = true /\ k_stage (g_k g') = KLoad)) /\ Strict P (g_k g')
   end.
 
 (* ---------- the flush stage ---------- *)
@@ -210,7 +211,7 @@ Proof.
         -- rewrite !app_nil_r. exact Hall.
         -- rewrite Hall. lia.
       * apply SW_ended; ksimp; auto.
-      * intros _. exact Hh.
+      * left. exact Hh.
       * ksimp. intros; discriminate.
     + split; [|split; [|split; [reflexivity|split; [|split; [exact Hh|]]]]].
       * destruct K. constructor; ksimp; ki_close.
@@ -228,7 +229,7 @@ Proof.
       * apply tk_dr.
       * rewrite len_tk. lia.
     + apply SW_full; ksimp; try reflexivity; lia.
-    + intros _. exact Hh.
+    + left. exact Hh.
     + ksimp. exact HS.
 Qed.
 
@@ -284,14 +285,15 @@ Proof.
     assert (KI' : forall st content flushed pend,
               flushed + lenN pend = content ->
               (st = KLoad -> content = 0 /\ last = false) ->
-              (st = KInit -> pend = []) ->
+              (st = KInit -> pend = [] /\ last = true) ->
               KI P cs0 chunks' (k_set_out (k_set_cs k cs' last) st content flushed pend)).
     { intros st content flushed pend Hsum Hld Hini. destruct K. constructor; ksimp; rewrite ?ESI; ki_close.
+      all: try (intros E El'; destruct (Hini E); congruence).
       all: try (intros E; destruct (Hld E); repeat split; auto; intros; discriminate).
       all: try (intros; discriminate).
       all: try (intros Hl; unfold chunks'; rewrite Hl; apply nolast_snoc; exact Hnl).
       all: try (intros Hl; split; [unfold chunks'; rewrite Hl; apply complete_snoc; exact Hnl|auto]).
-      all: try (intros E; split; auto). }
+      all: try (intros E; split; auto; apply Hini; auto). }
     destruct direct eqn:Edir.
     + (* written straight into the caller's output *)
       destruct last eqn:El.
@@ -307,7 +309,7 @@ Proof.
            ++ rewrite len_dr. lia.
            ++ lia.
         -- apply SW_ended; ksimp; auto.
-        -- intros; congruence.
+        -- left. ksimp. exact Hh.
       * cbn [IterOK]. exists chunks'. split; [|split; [|split; [|split; [|split]]]]; [| | | | |unfold Strict; congruence].
         -- pose proof (KI' KLoad 0 0 []) as H. ksimp. rewrite Hc0, Hop in *.
            replace (k_outFlushed k) with 0 by lia. rewrite Hst. apply H; auto; intros; discriminate.
@@ -369,14 +371,15 @@ Proof.
               k_inBuffPos k3 < k_inBuffTarget k3 -> k_frameEnded k3 = last -> k_blockSize k3 = k_blockSize k ->
               k_outFlushed k3 + lenN (k_outPend k3) = k_outContent k3 ->
               (k_stage k3 = KLoad -> k_outContent k3 = 0 /\ last = false) ->
-              (k_stage k3 = KInit -> k_outPend k3 = []) ->
+              (k_stage k3 = KInit -> k_outPend k3 = [] /\ last = true) ->
               KI P cs0 chunks' k3).
     { intros k3 H1 H2 H3 H4 H5 H6 H7 H8 H9. constructor; rewrite ?ESI, ?H1, ?H2, ?H5, ?H6; ki_close.
+      all: try (intros E El'; destruct (H9 E); congruence).
       all: try (rewrite lenN_nil; split; lia).
       all: try (intros E; destruct (H8 E); repeat split; auto; intros; discriminate).
       all: try (intros Hl; unfold chunks'; rewrite Hl; apply nolast_snoc; exact Hnl).
       all: try (intros Hl; split; [unfold chunks'; rewrite Hl; apply complete_snoc; exact Hnl|auto]).
-      all: try (intros E; split; auto). }
+      all: try (intros E; split; auto; apply H9; auto). }
     destruct direct eqn:Edir.
     + destruct last eqn:El.
       * cbn [IterOK]. exists chunks'. split; [|split; [|split; [|split]]]; [| | | |unfold Strict; ksimp; intros; exact K2k].
@@ -385,10 +388,11 @@ Proof.
            all: try (unfold chunks_in; cbn; rewrite ?app_nil_r; reflexivity).
            all: try exact Hout'.
         -- apply SW_ended; ksimp; rewrite ?K2f, ?K2c; auto.
-        -- intros _. ksimp. rewrite K2b. exact Hh.
+        -- left. ksimp. rewrite K2b. exact Hh.
       * cbn [IterOK]. exists chunks'. split; [|split; [|split; [|split; [|split]]]]; [| | | | |unfold Strict; ksimp; intros; exact K2k].
         -- apply KI'; ksimp; rewrite ?K2a, ?K2c, ?K2f, ?K2g, ?K2h, ?K2i; auto; try lia; try (intros; discriminate).
            all: try (intros _; split; [lia|reflexivity]).
+           all: try (rewrite K2d, Hst; intros; discriminate).
         -- apply GStep_mk with (d := cout) (e := cout); [| | | | | | |exact Hw]; ksimp; rewrite ?K2a, ?K2b, ?K2c, ?Hh, ?Hop; cbn [app]; try reflexivity; try lia.
            all: try (unfold chunks_in; cbn; rewrite ?app_nil_r; reflexivity).
            all: try exact Hout'.
@@ -453,7 +457,7 @@ Proof.
       all: try (rewrite outs_snoc, <- (ki_cs _ _ _ _ K), ECC; reflexivity).
       all: try (cbn [lenN lenN_acc]; lia).
     + apply SW_ended; ksimp; auto.
-    + intros _. ksimp. exact Hh.
+    + left. ksimp. exact Hh.
     + unfold Strict. ksimp. intros; discriminate.
   - destruct (kp_stableIn P) eqn:ESI; cbn [negb].
     + (* stable input *)
@@ -464,13 +468,13 @@ Proof.
            ++ apply GStep_same with (e := []); ksimp; rewrite ?Hh, ?app_nil_r; cbn [app]; try reflexivity; try lia.
               all: rewrite ?lenN_nil; lia.
            ++ apply SW_cont; ksimp; auto.
-           ++ intros; congruence.
+           ++ right. ksimp. split; [exact ESI|exact Hst].
            ++ unfold Strict. intros; congruence.
         -- apply g_compress_spec; ksimp; auto. rewrite ESI. left. intros ->. cbn in Hbig. lia.
       * destruct (N.eqb_spec (lenN gin) 0) as [Hz|Hnz].
         -- cbn [IterOK]. exists chunks. split; [exact K|split; [apply GStep_refl|split; [|split]]].
            ++ apply SW_flushed; ksimp; auto. apply lenN_zero_nil; exact Hz.
-           ++ intros; congruence.
+           ++ left. exact Hh.
            ++ unfold Strict. intros; congruence.
         -- apply g_compress_spec; ksimp; auto. rewrite ESI. left. intros ->. apply Hnz. reflexivity.
       * apply g_compress_spec; ksimp; auto. rewrite ESI. right. reflexivity.
@@ -505,7 +509,7 @@ Proof.
         destruct (N.ltb_spec (k_inBuffPos k + loaded) (k_inBuffTarget k)) as [Hpart|Hfull].
         -- cbn [IterOK]. exists chunks. split; [exact K1|split; [exact S1|split; [|split]]].
            ++ apply SW_cont; unfold g1; ksimp; auto. apply lenN_zero_nil. rewrite len_dr. unfold loaded, toLoad in *. lia.
-           ++ intros _. unfold g1, k1. ksimp. exact Hh.
+           ++ left. unfold g1, k1. ksimp. exact Hh.
            ++ unfold Strict, g1, k1. ksimp. intros; lia.
         -- apply Hcomp. left. intros E. apply F1 in E. unfold loaded, toLoad in *. lia.
       * (* flush: stop when nothing is pending *)
@@ -518,7 +522,7 @@ Proof.
            ++ apply SW_flushed; unfold g1, k1; ksimp; auto.
               ** rewrite Hg. apply dr_all. cbn. lia.
               ** apply lenN_zero_nil. rewrite lenN_app, len_tk. lia.
-           ++ intros _. unfold g1, k1. ksimp. exact Hh.
+           ++ left. unfold g1, k1. ksimp. exact Hh.
            ++ unfold Strict, g1, k1. ksimp. intros; lia.
         -- apply Hcomp. left. intros E. apply F1 in E. lia.
       * change (IterOK P cs0 DirEnd chunks (g_mk k gin gip gout gcap) (g_compress P DirEnd g1)).
@@ -542,7 +546,7 @@ Definition LoopOK (P : kparams) (cs0 : CS) (dir : directive) (chunks : list (byt
   | GErr e => e = KdstSize_tooSmall
   | GCont _ => False
   | GStop g' => exists chunks', KI P cs0 chunks' (g_k g') /\ GStep cs0 chunks chunks' g g' /\ StopWhy P dir g' /\
-                                (kp_stableIn P = false -> k_held (g_k g') = []) /\ Strict P (g_k g')
+                                (k_held (g_k g') = [] \/ (kp_stableIn P = true /\ k_stage (g_k g') = KLoad)) /\ Strict P (g_k g')
   end.
 
 Lemma phi_ge_2 (g : gstate) : k_frameEnded (g_k g) = false -> 2 <= phi g.
@@ -572,5 +576,160 @@ Qed.
 
 Lemma phi_bound (g : gstate) : phi g <= 2 * lenN (g_in g) + 5.
 Proof. unfold phi. destruct (k_stage (g_k g)); destruct (k_inPend (g_k g)); destruct (k_frameEnded (g_k g)); lia. Qed.
+
+(* ---------- one call of ZSTD_compressStream2 ---------- *)
+Record SI (P : kparams) (cs0 : CS) (chunks : list (bytes * bool)) (k : kstate) : Prop := {
+  si_ki : KI P cs0 chunks k;
+  si_strict : k_stage k <> KInit -> Strict P k;
+  si_held : kp_stableIn P = false -> k_held k = [];
+  si_flush : k_stage k = KFlush -> k_outFlushed k < k_outContent k /\ k_held k = [] }.
+
+(* why the call returned: [rest] = input offered but not taken, [capleft] = output room left *)
+Inductive CallStop (P : kparams) (dir : directive) (k' : kstate) (rest : bytes) (capleft : N) : Prop :=
+| CS_full : k_stage k' = KFlush -> capleft = 0 -> k_outFlushed k' < k_outContent k' -> CallStop P dir k' rest capleft
+| CS_ended : k_stage k' = KInit -> k_frameEnded k' = true -> k_outPend k' = [] -> k_inPend k' = [] -> CallStop P dir k' rest capleft
+| CS_cont : k_stage k' = KLoad -> dir = DirContinue -> rest = [] -> k_outPend k' = [] -> CallStop P dir k' rest capleft
+| CS_flushed : k_stage k' = KLoad -> dir = DirFlush -> rest = [] -> k_inPend k' = [] -> k_held k' = [] -> k_outPend k' = [] ->
+               CallStop P dir k' rest capleft
+| CS_deferred : k_stage k' = KInit -> dir = DirContinue -> rest = [] -> kp_stableIn P = true -> CallStop P dir k' rest capleft.
+
+Lemma kfuel_N n : N.of_nat (kfuel n) = 2 * N.of_nat n + 4.
+Proof. unfold kfuel. lia. Qed.
+
+Lemma KI_init P fc pledged (k : kstate) :
+  1 <= fc_maxBlock fc ->
+  let k0 := k_init CS cs_begin P fc pledged k in
+  KI P (cs_begin (k_cs k) fc pledged) [] k0 /\ Strict P k0 /\ k_stage k0 = KLoad /\ k_held k0 = k_held k /\
+  k_inPend k0 = [] /\ k_outPend k0 = [].
+Proof.
+  intros Hmb. unfold k_init. cbv zeta.
+  set (windowSize := N.max 1 (N.min (pow2 (fc_windowLog fc)) pledged)).
+  set (blockSize := N.min (fc_maxBlock fc) windowSize).
+  assert (Hbs : 1 <= blockSize) by (unfold blockSize, windowSize; lia).
+  split; [|split; [|split; [|split; [|split]]]]; ksimp; try reflexivity.
+  - constructor; ksimp; ki_close.
+    1: { destruct (kp_stableIn P); [reflexivity|]. change (lenN (@nil N)) with 0. split; [lia|]. destruct (blockSize =? pledged); lia. }
+    all: try (intros c []; fail).
+    all: try (intros; discriminate).
+    all: try (intros _ c H; destruct H; fail).
+  - unfold Strict. ksimp. intros ->. intros _. destruct (blockSize =? pledged); lia.
+Qed.
+
+Lemma kstep_spec P fc cs0 chunks k inp ocap dir :
+  SI P cs0 chunks k -> 1 <= fc_maxBlock fc ->
+  let o := kstep P fc k inp ocap dir in
+  match ko_ret o with
+  | None => ko_err o = Some KdstSize_tooSmall \/ ko_err o = Some Kstability
+  | Some r =>
+      exists cs1 chunks1 chunks2 taken rest capleft,
+        ((cs1 = cs0 /\ chunks1 = chunks) \/
+         (k_stage k = KInit /\ chunks1 = [] /\ exists pl, cs1 = cs_begin (k_cs k) fc pl)) /\
+        SI P cs1 chunks2 (ko_k o) /\
+        (exists more, chunks2 = chunks1 ++ more /\ Work more) /\
+        k_held k ++ inp = taken ++ rest /\
+        ko_consumed o = (Z.of_N (lenN taken) - Z.of_N (lenN (k_held k)))%Z /\
+        chunks_in chunks2 ++ k_inPend (ko_k o) ++ k_held (ko_k o) = chunks_in chunks1 ++ k_inPend k ++ taken /\
+        (exists d, outs cs1 chunks2 = outs cs1 chunks1 ++ d /\ ko_out o ++ k_outPend (ko_k o) = k_outPend k ++ d) /\
+        lenN (ko_out o) + capleft = ocap /\
+        (r = k_outContent (ko_k o) - k_outFlushed (ko_k o) \/
+         (r = hdr_min (kp_magicless P) /\ dir = DirContinue /\ kp_stableIn P = true /\ k_stage (ko_k o) = KInit)) /\
+        CallStop P dir (ko_k o) rest capleft
+  end.
+Proof.
+  intros S Hmb. destruct S as [K HS Hheld Hfl].
+  unfold CStreamModel.kstep. cbv zeta.
+  set (isCont := match dir with DirContinue => true | _ => false end).
+  set (isEnd := match dir with DirEnd => true | _ => false end).
+  set (total := lenN inp + lenN (k_held k)).
+  destruct (match k_stage k with KInit => andb (kp_stableIn P) (andb isCont (total <? BLOCKMAX)) | _ => false end) eqn:Eearly.
+  - (* deferred initialisation (stable input, nothing compressed yet) *)
+    cbn [ko_ret ko_k ko_consumed ko_out].
+    destruct (k_stage k) eqn:Est; try discriminate.
+    apply andb_prop in Eearly. destruct Eearly as [ESI Eearly]. apply andb_prop in Eearly. destruct Eearly as [Ec _].
+    assert (Hdir : dir = DirContinue) by (destruct dir; try discriminate; reflexivity).
+    pose proof (ki_init _ _ _ _ K Est) as [Hop Hip].
+    exists cs0, chunks, chunks, (k_held k ++ inp), [], ocap.
+    split; [left; split; reflexivity|].
+    split; [|split; [exists []; rewrite app_nil_r; split; [reflexivity|left; reflexivity]|]].
+    + constructor; ksimp; try congruence.
+      destruct K. constructor; ksimp; ki_close.
+    + split; [rewrite app_nil_r; reflexivity|]. split; [rewrite lenN_app; lia|].
+      ksimp. split; [reflexivity|]. split; [exists []; rewrite !app_nil_r; split; reflexivity|].
+      split; [cbn; lia|]. split; [right; repeat split; auto|].
+      apply CS_deferred; ksimp; auto.
+  - (* initialise a frame if needed, then run the state machine *)
+    clear Eearly.
+    set (k0 := match k_stage k with
+               | KInit => k_set_expect (k_init CS cs_begin P fc (if isEnd then total else fc_pledge fc) k) ocap
+               | _ => k end).
+    assert (H0 : exists cs1 chunks1,
+               ((cs1 = cs0 /\ chunks1 = chunks) \/ (k_stage k = KInit /\ chunks1 = [] /\ exists pl, cs1 = cs_begin (k_cs k) fc pl)) /\
+               KI P cs1 chunks1 k0 /\ Strict P k0 /\ k_stage k0 <> KInit /\ k_held k0 = k_held k /\
+               k_inPend k0 = k_inPend k /\ k_outPend k0 = k_outPend k /\
+               (k_stage k0 = KFlush -> k_held k = [])).
+    { unfold k0. destruct (k_stage k) eqn:Est.
+      - pose proof (KI_init P fc (if isEnd then total else fc_pledge fc) k Hmb) as (Ki & Si & Sti & Hhi & Hpi & Hoi).
+        pose proof (ki_init _ _ _ _ K Est) as [Hop Hip].
+        exists (cs_begin (k_cs k) fc (if isEnd then total else fc_pledge fc)), [].
+        split; [right; split; [reflexivity|split; [reflexivity|eexists; reflexivity]]|].
+        split; [|split; [|split; [|split; [|split; [|split]]]]]; ksimp; try congruence.
+        + destruct Ki. constructor; ksimp; ki_close.
+        + unfold Strict in *. ksimp. exact Si.
+      - exists cs0, chunks. split; [left; split; reflexivity|].
+        split; [exact K|split; [apply HS; congruence|split; [congruence|repeat split; auto; intros; congruence]]].
+      - exists cs0, chunks. split; [left; split; reflexivity|].
+        split; [exact K|split; [apply HS; congruence|split; [congruence|repeat split; auto]]].
+        intros _. apply Hfl. reflexivity. }
+    destruct H0 as (cs1 & chunks1 & Hfr & K0 & S0 & Hst0 & Hh0 & Hip0 & Hop0 & Hfh0).
+    destruct (andb (kp_stableOut P) (negb (k_expectOut k0 =? ocap))); [right; reflexivity|].
+    set (I := if kp_stableIn P then k_held k0 ++ inp else inp).
+    set (g0 := g_mk (k_set_held k0 []) I 0 [] ocap).
+    assert (HI : k_held k ++ inp = I).
+    { unfold I. rewrite Hh0. destruct (kp_stableIn P) eqn:E; [reflexivity|]. rewrite (Hheld eq_refl). reflexivity. }
+    assert (Kg : KI P cs1 chunks1 (g_k g0)).
+    { unfold g0. ksimp. destruct K0. constructor; ksimp; ki_close. }
+    assert (Sg : Strict P (g_k g0)) by (unfold g0, Strict in *; ksimp; exact S0).
+    assert (Hphi : phi g0 < N.of_nat (kfuel (length I)) + 2).
+    { rewrite kfuel_N. pose proof (phi_bound g0) as Hb. unfold g0 in Hb at 2. ksimp. rewrite lenN_length in Hb. lia. }
+    pose proof (g_loop_spec P cs1 dir (kfuel (length I)) chunks1 g0 Kg ltac:(unfold g0; ksimp; exact Hst0)
+                  ltac:(unfold g0; ksimp; reflexivity) Sg Hphi ltac:(unfold kfuel; lia)) as HL.
+    match goal with |- context [CStreamModel.g_loop CS compress_chunk ?f P dir ?g] =>
+      change (CStreamModel.g_loop CS compress_chunk f P dir g) with (g_loop (kfuel (length I)) P dir g0) end.
+    destruct (g_loop (kfuel (length I)) P dir g0) as [g'|g'|e]; cbn [LoopOK] in HL.
+    + destruct HL.
+    + destruct HL as (c2 & K2 & S2 & W2 & Hh2 & HS2).
+      cbn [ko_ret ko_k ko_consumed ko_out].
+      destruct S2 as [Gin [d [Gout Gout']] Gip Glen Gcap [e Ge] [more [Gext Gw]]].
+      unfold g0 in Gin, Gout', Gip, Glen, Gcap, Ge. ksimp.
+      rewrite app_nil_l in Gout'. rewrite app_nil_l in Ge.
+      assert (Hconv : (chunks_in c2 ++ k_inPend (g_k g') ++ k_held (g_k g')) ++ g_in g' = (chunks_in chunks1 ++ k_inPend k0) ++ I).
+      { rewrite <- !app_assoc. exact Gin. }
+      destruct (app_suffix_split _ _ _ _ Hconv Glen) as [Hrest Hpre].
+      pose proof (ki_out _ _ _ _ K2) as Ho2.
+      exists cs1, chunks1, c2, (tk (lenN I - lenN (g_in g')) I), (g_in g'), (g_ocap g').
+      split; [exact Hfr|].
+      split; [|split; [exists more; split; [exact Gext|exact Gw]|]].
+      * (* SI of the new state *)
+        constructor; ksimp.
+        -- destruct K2. constructor; ksimp; ki_close.
+        -- intros Hne. unfold Strict in *. ksimp. exact HS2.
+        -- intros E. destruct Hh2 as [Hh2|[Hh2 _]]; [exact Hh2|congruence].
+        -- intros Ef. destruct W2 as [W1 W2' W3|W1 W2' W3|W1 W2' W3|W1 W2' W3 W4 W5]; try congruence.
+           split; [exact W3|]. destruct Hh2 as [Hh2|[_ Hh2]]; [exact Hh2|congruence].
+      * split; [transitivity I; [exact HI|]; rewrite Hrest at 2; symmetry; apply tk_dr|].
+        split; [rewrite len_tk, Hh0; destruct (kp_stableIn P) eqn:E; [|rewrite (Hheld eq_refl); change (lenN (@nil N)) with 0]; lia|].
+        split; [rewrite Hpre, Hip0, <- app_assoc; reflexivity|].
+        split; [exists d; split; [exact Gout|rewrite Hop0 in Gout'; exact Gout']|].
+        split; [change (lenN (@nil N)) with 0 in Gcap; lia|]. split; [left; reflexivity|].
+        destruct W2 as [W1 W2' W3|W1 W2' W3|W1 W2' W3|W1 W2' W3 W4 W5].
+        -- apply CS_full; ksimp; auto.
+        -- apply CS_ended; ksimp; auto. apply (ki_ended _ _ _ _ K2 W2').
+        -- pose proof (ki_load _ _ _ _ K2 W1) as [Hc _].
+           apply CS_cont; ksimp; auto. apply lenN_zero_nil. lia.
+        -- pose proof (ki_load _ _ _ _ K2 W1) as [Hc _].
+           apply CS_flushed; ksimp; auto. apply lenN_zero_nil. lia.
+    + cbn [ko_ret ko_err]. left. rewrite HL. reflexivity.
+Qed.
+
 
 End CProofs.
